@@ -14,7 +14,7 @@ RULE = ("(a) calculate_tcorr(calculate_xi(t)) = t and monotonic decrease of xi o
 CONST0 = {"ksigma_bulk": 95.4, "krho_bulk": 353.4, "klow_bulk": 366, "tcorr_bulk": 54e-12, "D_H2O": 2.3e-9, "D_SL": 4.1e-10}
 
 
-def synth(rng, interp, smax_model, field=None):
+def synth(rng, interp, smax_model, field=None, grid="linspace"):
     field = field or rng.choice([0.3, 0.35, 1.2, 3.0, 7.05, 9.4, 14.1, 15.0])
     omega_e = 1.76085963023e-1 * field
     omega_H = 2.6752218744e-4 * field
@@ -36,6 +36,14 @@ def synth(rng, interp, smax_model, field=None):
     pmax = 10 ** rng.uniform(-1.5, 0.5)
     p = np.linspace(pmax / 200, pmax, n)
     p12 = pmax * 10 ** rng.uniform(-1.3, -0.2)
+    if grid == "two-segment":
+        # a fine low-power sweep plus a few points at high power, the half-saturation power far below the top power
+        nlow = rng.randint(5, 9)
+        p = np.concatenate([np.linspace(0.0, pmax / 400, nlow), pmax * np.array([0.5, 1.0])])
+        p12 = pmax / 200 * rng.choice([0.5, 1.0, 2.0])
+        n = len(p)
+    elif grid == "geometric":
+        p = np.geomspace(pmax / 1000, pmax, n)
     # the T1 series has its own power grid — sometimes with as many points as the enhancement series, never the same powers
     n1 = n if rng.random() < 0.3 else rng.randint(4, 8)
     pT = np.linspace(pmax / 150, 0.9 * pmax, n1)
@@ -94,7 +102,7 @@ def run(tier, seed, escalate=False):
     for interp in ("linear", "second_order"):
         for smodel in ("tethered", "free", 0.8):
             for _ in range(n):
-                data, extra, truth = synth(rng, interp, smodel)
+                data, extra, truth = synth(rng, interp, smodel, grid=("linspace", "two-segment", "geometric", "linspace", "two-segment")[_ % 5])
                 n_eval += 1
                 label = "%s:%s" % (interp, smodel if isinstance(smodel, str) else "float")
                 # the caller's own bulk constants in every third call (the calls before and after rely on the defaults, so
@@ -157,6 +165,32 @@ def run(tier, seed, escalate=False):
                 except Exception as e:  # noqa: BLE001
                     key = "C20:legacy-units-raise"
                     fails.append({"key": key, "clause": key, "ops": [{"error": type(e).__name__}]})
+    # ---------------- the saturation fit on its own (cheap): k_sigma*s(p) generated from the model on regular and IRREGULAR power
+    # grids (a fine low-power sweep plus a few high-power points — where the first unconstrained fit steps across the pole and the
+    # restart is needed), every combination of top power, half-saturation power, sweep length, scale and smax
+    import itertools as _it
+    nlows = (4, 5, 6, 7, 8) if tier == "quick" else (3, 4, 5, 6, 7, 8, 10, 12)
+    for pmax, frac, nlow, kss, smax_v, style in _it.product((0.5, 1.0, 4.0, 10.0), (1 / 400, 1 / 200, 1 / 100, 1 / 20, 1 / 3),
+                                                            nlows, (8.0, 40.0, 95.0), (1.0, 0.8, 0.36), ("two-segment", "linspace")):
+        if style == "linspace":
+            if nlow != nlows[0]:
+                continue
+            P = np.linspace(pmax / 100, pmax, 12)
+        else:
+            P = np.concatenate([np.linspace(0.0, pmax / 400, nlow), [pmax / 2, pmax]])
+        p12 = pmax * frac
+        arr = kss * smax_v * P / (p12 + P)
+        n_eval += 1
+        try:
+            with warnings.catch_warnings():
+                warnings.simplefilter("ignore")
+                ks, _sd, fitarr = H.calculate_ksigma(arr, P, smax_v)
+            okk = abs(ks - kss) <= 1e-6 * kss and np.allclose(fitarr, arr, rtol=1e-6, atol=1e-9)
+        except Exception as e:  # noqa: BLE001
+            okk = False
+        if not okk:
+            key = "C20:ksigma-fit-not-recovered:" + style
+            fails.append({"key": key, "clause": key, "ops": [{"powers": P.tolist(), "p_12": p12, "ksigma": kss, "smax": smax_v}]})
     # a field above 3 T given in tesla
     data, extra, truth = synth(rng, "linear", "tethered", field=9.4)
     n_eval += 1
